@@ -7,6 +7,13 @@ m = json.load(open(os.path.join(V, "MANIFEST.json")))
 only = sys.argv[1:]
 subprocess.run([sys.executable, os.path.join(V, "vlib", "thmmodules.py")])
 bad = []
+# the whole Lean library and the driver must build on the clean tree (a check alone falls back to the modules
+# of its own theorems and a previously built driver when the library-wide build fails - right for a mutated
+# /repo, wrong for a mistake of ours)
+lb = subprocess.run(["lake", "build"], cwd=os.path.join(V, "lean"), stdout=subprocess.PIPE, stderr=subprocess.STDOUT, text=True)
+if lb.returncode != 0:
+    print("LAKE BUILD FAILED\n" + lb.stdout[-1500:])
+    bad.append("lake-build")
 for c in m["checks"]:
     pid = c["property_id"]
     if only and pid not in only:
